@@ -86,7 +86,7 @@ def check_string(MapSpec, s: str):
             return None
 
     for cls in guard("wellformed", lambda: malformed_classes(m)) or []:
-        fails.append((f"accepted-malformed-{cls}", f"{s!r} -> {m!s}"))
+        fails.append((f"{cls}-accepted", f"{s!r} -> {m!s}"))
     s1 = guard("str", lambda: str(m))
     if s1 is not None:
         m2 = guard("reparse", lambda: MapSpec.from_string(s1))
